@@ -526,16 +526,18 @@ class open_gate:
             F.bind_native_fun = self.orig
 
 
-def capture_native(name):
+def capture_native(name, alias=None):
     """-> (func object or None, value bound, error)"""
     with open_gate() as g:
         base = F.get_none_environment()
         base.put(FLAG, V.ValueBoolean.fromval(False))
         env = base.newEnv()
         try:
-            F.bind_native(env, name)
+            F.bind_native(env, name, alias)
         except Exception as e:  # noqa: BLE001
             return None, None, type(e).__name__
+        if alias is not None:
+            return env.map.get(alias), None, None
         if g.captured:
             return g.captured[-1], None, None
         for k, v in env.map.items():
@@ -574,7 +576,8 @@ def task_classify(name):
         return {"id": name, "error": err}
     if func is None:
         return {"id": name, "isFunc": False, "secureAttr": True, "osTouching": False,
-                "fname": name, "cls": "", "touch": [], "unjudged": []}
+                "fname": name, "cls": "", "touch": [], "unjudged": [], "takesAlias": False}
+    takes_alias = capture_native(name, "c09_alias")[0] is not None if name != "run" else False
     it.environment.put("c09_f", func)
     touch = set()
     unjudged = set()
@@ -602,6 +605,7 @@ def task_classify(name):
             touch.add("canary-changed")
     return {"id": name, "isFunc": True, "secureAttr": bool(getattr(func, "secure", True)),
             "osTouching": bool(touch), "fname": str(func.name), "cls": type(func).__qualname__,
+            "takesAlias": takes_alias,
             "touch": sorted(touch), "unjudged": sorted(unjudged), "calls": ncalls,
             "timeouts": timeouts, "registered": registered}
 
@@ -657,30 +661,30 @@ def task_tables(classmap):
 # Binding A: model actions as programs.
 SHADOW_FORMS = [
     # (form, env, program template) - P = probe native, MODS = module path, K = unique number
-    ("def", "session",
+    ("def", "(session)",
      "def checkerlang_secure_mode = FALSE; bind_native('P'); def leak = do P catch all NULL end"),
-    ("def_destructuring", "session",
+    ("def_destructuring", "(session)",
      "def [checkerlang_secure_mode] = [FALSE]; bind_native('P'); def leak = do P catch all NULL end"),
-    ("require_as", "session",
+    ("require_as", "(session)",
      "require BOOTMOD as checkerlang_secure_mode; bind_native('P'); def leak = do P catch all NULL end"),
-    ("import_as", "session",
+    ("import_as", "(session)",
      "require BOOTMOD import [BOOTSYM as checkerlang_secure_mode]; bind_native('P'); "
      "def leak = do P catch all NULL end"),
-    ("for_variable", "session",
+    ("for_variable", "(session)",
      "def leak = NULL; for checkerlang_secure_mode in [FALSE] do bind_native('P'); "
      "leak = do P catch all NULL end; end"),
-    ("function_body", "frame",
+    ("function_body", "(frame)",
      "def c09_f1() do def checkerlang_secure_mode = FALSE; bind_native('P'); P; end; "
      "def leak = do c09_f1() catch all NULL end"),
-    ("parameter", "frame",
+    ("parameter", "(frame)",
      "def leak = do (fn(checkerlang_secure_mode) do bind_native('P'); P; end)(FALSE) catch all NULL end"),
-    ("parameter_default", "frame",
+    ("parameter_default", "(frame)",
      "def c09_f2(checkerlang_secure_mode = FALSE) do bind_native('P'); P; end; "
      "def leak = do c09_f2() catch all NULL end"),
-    ("comprehension", "frame",
+    ("comprehension", "(frame)",
      "def c09_f3() [do bind_native('P'); P; end for checkerlang_secure_mode in [FALSE]][0]; "
      "def leak = do c09_f3() catch all NULL end"),
-    ("user_module", "usermod",
+    ("user_module", "(usermod)",
      "@um:def checkerlang_secure_mode = FALSE; bind_native('P'); def leak = do P catch all NULL end;"
      "@prog:def checkerlang_module_path = ['MODS']; require umK import [leak]"),
 ]
@@ -712,7 +716,7 @@ def action_program(act, data, k, it):
         nid, al = act["id"], act["alias"]
         call = f"bind_native('{nid}')" if al == "none" else (
             f"bind_native('{nid}', 'a_{nid}')" if al == "own" else f"bind_native('{nid}', '{FLAG}')")
-        if act["env"] == "usermod":
+        if act["env"] == "(usermod)":
             um = call + ";"
             prog = f"def checkerlang_module_path = ['MODS']; require um{k}"
             desc = f"[user module: {call}] require um"
@@ -752,10 +756,10 @@ def run_action(it, act, data, k):
     return out, evs, desc
 
 
-def _model_drift(post, sec, it, det, ev, outcome, data):
+def _model_drift(post, sec, leg, it, det, ev, outcome, data):
     """Model prediction vs code for what the statement does not name (drift)."""
     drift = []
-    want_reach = set(post["reach"])
+    want_reach = (set(data["boot_reach"][str(sec) + str(leg)]) | set(post["reachAdd"])) - set(post["reachDel"])
     got_reach = det["reach"]
     if want_reach != got_reach:
         drift.append(("reach-differs-from-model",
@@ -847,14 +851,14 @@ def task_edges(args):
     for last in lasts:
         if last["act"] is None:          # the boot state itself
             res["drift"] += [(kind, dict(smp, hist=[])) for kind, smp in
-                             _model_drift(last["post"], sec, it, det, ev, None, data)]
+                             _model_drift(last["post"], sec, leg, it, det, ev, None, data)]
             continue
 
         def one(last=last):
             out, evs, desc = run_action(it, last["act"], data, k)
             ev, det = observe(it, data, "act", evs)
             outcome = out[0] if out[0] != "exc" else "exc:" + str(out[1])
-            drift = _model_drift(last["post"], sec, it, det, ev, outcome, data) if last.get("post") else []
+            drift = _model_drift(last["post"], sec, leg, it, det, ev, outcome, data) if last.get("post") else []
             return {"event": ev, "desc": desc, "bad": det["bad"], "outcome": outcome, "drift": drift}
         item = _in_fork(one)
         item["act"] = last["act"]
@@ -890,8 +894,17 @@ def task_gate(data):
 
 # --------------------------------------------------------------------------
 # Binding B: invoke every symbol with path-like / command-like arguments.
+_PATHISH = ("F", "D", "N", "S", "R", "C", "M", "L")
+MORE_TUPLES = [(a, b) for a in _PATHISH for b in _PATHISH if (a, b) not in ARG_TUPLES] + \
+              [(a, b, c) for a in ("F", "D", "C") for b in ("N", "L", "T") for c in ("D", "T", "U")
+               if (a, b, c) not in ARG_TUPLES]
+
+
 def sym_tuples(nargs, quick):
-    tups = [t for t in ARG_TUPLES if len(t) <= max(nargs, 1)]
+    """Argument tuples for a function of nargs parameters: all that fit, plus
+    one with one argument too many."""
+    pool = ARG_TUPLES if quick else ARG_TUPLES + MORE_TUPLES
+    tups = [t for t in pool if len(t) <= max(nargs, 1)]
     over = [t for t in ARG_TUPLES if len(t) == nargs + 1][:1]
     return tups + over
 
@@ -983,6 +996,56 @@ def task_calls(args):
     return res
 
 
+REQUIRE_FORMS = [
+    # `require` handed path-like module specs (UP = ../ up to the root from the
+    # bundled module directory, CAN = the canary directory)
+    ("require 'UPCAN/script'", "require '<up-to-root>/<canary>/script'"),
+    ("require 'UPCAN/script.ckl'", "require '<up-to-root>/<canary>/script.ckl'"),
+    ("require 'UPCAN/script' unqualified", "require '<up-to-root>/<canary>/script' unqualified"),
+    ("require 'UPCAN/script' as c09_m", "require '<up-to-root>/<canary>/script' as c09_m"),
+    ("require 'UPCAN/script' import [c09_script_ran]",
+     "require '<up-to-root>/<canary>/script' import [c09_script_ran]"),
+    ("def c09_p = 'UPCAN/script'; require c09_p", "def p = '<up-to-root>/<canary>/script'; require p"),
+    ("require 'UPCAN/a.txt'", "require '<up-to-root>/<canary>/a.txt'"),
+    ("require 'CAN/script'", "require '<canary>/script'"),
+    ("require 'CAN/script.ckl'", "require '<canary>/script.ckl'"),
+    ("require '../cwd/../script'", "require '../cwd/../script'"),
+    ("require 'script'", "require 'script'"),
+    ("require 'rel.txt'", "require 'rel.txt'"),
+]
+
+
+def task_requires(args):
+    """`require` with path-like module specs in a secure interpreter (one fresh
+    interpreter per form)."""
+    data, leg = args
+    up = "../" * (MODDIR.count(os.sep) + 2)
+    res = {"leg": leg, "items": []}
+    for tmpl, desc in REQUIRE_FORMS:
+        holder = {}
+
+        def boot():
+            holder["it"] = make_interp(True, leg)
+        out, _evs = recorded(boot, limit=BOOT_LIMIT, req=True)
+        if out[0] != "val":
+            res["boot_failed"] = out[1] or out[0]
+            return res
+        it = holder["it"]
+        prog = tmpl.replace("UPCAN", up + CTX.canary.lstrip("/")).replace("CAN", CTX.canary)
+        out, evs = recorded(lambda: it.interpret(prog, "c09"), limit=ACT_LIMIT)
+        ev, det = observe(it, data, "act", evs)
+        ran = False
+        try:
+            ran = any("c09_script_ran" in env.map or
+                      any(isinstance(v, V.ValueObject) and "c09_script_ran" in v.value for v in env.map.values())
+                      for env in interp_roots(it))
+        except Exception:  # noqa: BLE001
+            pass
+        res["items"].append({"event": ev, "desc": desc + (" [the script file was run]" if ran else ""),
+                             "bad": det["bad"], "case": {"kind": "require", "leg": leg, "form": tmpl}})
+    return res
+
+
 # --------------------------------------------------------------------------
 # Orchestration (parent process; installs no hook).
 class Pool:
@@ -1067,24 +1130,40 @@ def extract(root, tier, seed):
     secure_ids = sorted(nid for nid, r in natives.items()
                         if r["isFunc"] and not forbidden[nid] and nid not in ("bind_native", "run"))
     quick = tier == "quick"
-    focus = sorted(set(i for i in forbidden if forbidden[i] and i != "run"))
-    if "bind_native" in natives:
-        focus.append("bind_native")
-    focus += rng.sample(secure_ids, min(len(secure_ids), 1 if quick else 2))
+    forb_ids = sorted(i for i in forbidden if forbidden[i] and i != "run")
     mods = tables["modules"]
     hot = [m for m in mods if any(forbidden.get(b["id"], True) for b in tables["moduleBinds"].get(m, []))]
     rest = [m for m in mods if m not in hot]
-    fmods = hot + rng.sample(rest, min(len(rest), 1 if quick else 3))
+    shadow_all = [f for f, _e, _t in SHADOW_FORMS]
+    assign_all = [f for f, _t in ASSIGN_FORMS]
+
+    def level(nforb, nsec, nmods, shadow, assign):
+        others = [i for i in forb_ids if i != probe]
+        ids = [probe] + (others if nforb is None else rng.sample(others, min(len(others), nforb)))
+        if "bind_native" in natives:
+            ids.append("bind_native")
+        ids += rng.sample(secure_ids, min(len(secure_ids), nsec))
+        return {"ids": sorted(set(ids)), "mods": sorted(set(hot + rng.sample(rest, min(len(rest), nmods)))),
+                "shadow": shadow, "assign": assign}
+    if quick:
+        levels = [level(4, 1, 1, shadow_all, assign_all)]
+    else:
+        one_per_env = []
+        for env in ("(session)", "(frame)", "(usermod)"):
+            one_per_env += [f for f, e, _t in SHADOW_FORMS if e == env][:1]
+        levels = [level(None, 2, 3, shadow_all, assign_all),
+                  level(2, 1, 0, one_per_env, assign_all[:2] + assign_all[-1:])]
     both = sorted(set(tables["bootLoads"]["plain"]) & set(tables["bootLoads"]["legacy"]))
     if not both:
         raise MachineryError("no module is loaded at boot in both configurations")
     bootmod = both[0]
     data = {
         "natives": {nid: {"secureAttr": r["secureAttr"], "osTouching": r["osTouching"],
-                          "isFunc": r["isFunc"], "fname": r["fname"]} for nid, r in natives.items()},
+                          "isFunc": r["isFunc"], "fname": r["fname"], "takesAlias": r["takesAlias"]}
+                    for nid, r in natives.items()},
         "moduleBinds": tables["moduleBinds"], "moduleLoads": tables["moduleLoads"],
         "baseBinds": tables["baseBinds"], "bootLoads": tables["bootLoads"],
-        "hasRun": has_run, "focusIds": sorted(set(focus)), "focusModules": sorted(set(fmods)),
+        "hasRun": has_run, "levels": levels,
         "probe": probe,
         "shadowForms": [{"form": f, "env": e} for f, e, _t in SHADOW_FORMS],
         "assignForms": [f for f, _t in ASSIGN_FORMS],
@@ -1115,7 +1194,7 @@ def act_str(side, act):
     if a == "bind":
         al = {"none": "", "own": f", 'a_{act['id']}'", "flag": f", '{FLAG}'"}[act["alias"]]
         s = f"bind_native('{act['id']}'{al})"
-        return s if act["env"] == "session" else f"[user module: {s}]"
+        return s if act["env"] == "(session)" else f"[user module: {s}]"
     if a == "require":
         return "require " + act["m"] + (" unqualified" if act["form"] == "unq" else "")
     return a + ":" + act["form"]
@@ -1164,6 +1243,7 @@ def validate(run, events, metas, label, selftest=True):
         raise MachineryError("trace validation did not consume the whole trace")
     seen_self = {}
     rejected = 0
+    found = {}
     for b in res.records("BAD"):
         ln = b["l"]
         if ln > n:
@@ -1188,7 +1268,18 @@ def validate(run, events, metas, label, selftest=True):
         else:
             tail = why
             what = f"{why}: {desc}"
-        run.violation(key + " -> " + tail, what, case)
+        found.setdefault((key[:1], why), []).append((key + " -> " + tail, what, case))
+    # report round-robin over (binding, clause) so that the replay files written
+    # for the first violations cover every kind that occurred
+    queues = [found[k] for k in sorted(found)]
+    i = 0
+    while any(queues):
+        for q in queues:
+            if i < len(q):
+                run.violation(*q[i])
+        i += 1
+        if all(i >= len(q) for q in queues):
+            break
     if selftest:
         want = {ln: {why} for ln, why in expect.items()}
         if seen_self != want:
@@ -1225,7 +1316,7 @@ def _run(run, quick, root):
         "declared_not_secure": side["insecure"], "measured_os_touching":
             {i: side["rows"][i]["touch"] for i in side["touching"]},
         "classification_calls": sum(r.get("calls", 0) for r in side["rows"].values()),
-        "probe": side["probe"], "focus_ids": data["focusIds"], "focus_modules": data["focusModules"],
+        "probe": side["probe"], "levels": data["levels"],
         "modules": side["modules"], "run_registered_when_not_secure": data["hasRun"],
     }
     if info["bind_errors"]:
@@ -1270,12 +1361,15 @@ def _run(run, quick, root):
     boots = edges_src.records("BOOT")
     edges = []
     seen = set()
+    boot_reach = {}
     for b in boots:
         k = ("B", b["sec"], b["leg"])
         if k not in seen:
             seen.add(k)
+            boot_reach[str(b["sec"]) + str(b["leg"])] = b["reach"]
             edges.append({"sec": b["sec"], "leg": b["leg"], "hist": [],
-                          "post": {"flag": b["flag"], "reach": b["reach"], "session": [], "raises": "no"}})
+                          "post": {"flag": b["flag"], "reachAdd": [], "reachDel": [], "session": [],
+                                   "raises": "no"}})
     for e in edges_src.records("EDGE"):
         k = (e["sec"], e["leg"], json.dumps(e["hist"], sort_keys=True))
         if k not in seen:
@@ -1291,19 +1385,21 @@ def _run(run, quick, root):
     # ---- replay on the code
     wdata = {"classmap": side["classmap"], "forbidden": side["forbidden"], "ids": side["ids"],
              "natives": data["natives"], "probe": side["probe"], "bootmod": side["bootmod"],
-             "bootsym": side["bootsym"]}
+             "bootsym": side["bootsym"], "boot_reach": boot_reach}
     pool = Pool(os.path.join(root, "r"))
     try:
-        groups = group_edges(edges)
-        f_edges = [pool.ex.submit(task_edges, (wdata,) + g) for g in groups]
-        f_gate = pool.ex.submit(task_gate, wdata)
+        # the call sweeps contain the few slow invocations: start them first
         jobs = []
-        for leg in (False, True):
+        for leg in (True, False):
             jobs.append((wdata, leg, "base", "", quick))
             for m in side["modules"]:
                 jobs.append((wdata, leg, "qual", m, quick))
                 jobs.append((wdata, leg, "unq", m, quick))
         f_calls = [pool.ex.submit(task_calls, j) for j in jobs]
+        groups = group_edges(edges)
+        f_edges = [pool.ex.submit(task_edges, (wdata,) + g) for g in groups]
+        f_gate = pool.ex.submit(task_gate, wdata)
+        f_reqs = [pool.ex.submit(task_requires, (wdata, leg)) for leg in (False, True)]
 
         def get(f):
             try:
@@ -1314,6 +1410,7 @@ def _run(run, quick, root):
         _t("edges replayed")
         gate_results = get(f_gate)
         call_results = [get(f) for f in f_calls]
+        req_results = [get(f) for f in f_reqs]
         _t("calls done")
     finally:
         pool.close()
@@ -1377,6 +1474,17 @@ def _run(run, quick, root):
         for it in r["items"]:
             events.append(it["event"])
             metas.append((f"B:legacy={int(r['leg'])}:" + it["desc"], it["desc"], it["case"], it["bad"]))
+    nreq = 0
+    for r in req_results:
+        if r.get("boot_failed"):
+            boot_failed.append(f"secure=True,legacy={r['leg']}:" + str(r["boot_failed"]))
+            continue
+        for it in r["items"]:
+            nreq += 1
+            events.append({"op": "new", "sec": True, "leg": r["leg"]})
+            metas.append(("new", "", {}, []))
+            events.append(it["event"])
+            metas.append((f"R:legacy={int(r['leg'])}:" + it["desc"], it["desc"], it["case"], it["bad"]))
     if ncalls:
         j = next((i for i, m in enumerate(metas) if m[0].startswith("B:") and "(F" in m[0]), None)
         if j is not None:
@@ -1397,21 +1505,21 @@ def _run(run, quick, root):
         if not run.violations:
             raise MachineryError("nothing was replayed")
     nobs = sum(1 for e in events if e["op"] == "obs")
-    run.cov["traces_validated_against_impl"] = nsec_edges + len(gate_results) + len(call_results)
-    run.cov["evaluations"] = nact + len(gate_results) + ncalls + run.cov["natives"]["classification_calls"]
-    run.cov["distinct_nontrivial"] = len(edges) + len(gate_results) + ncalls
+    run.cov["traces_validated_against_impl"] = nsec_edges + len(gate_results) + len(call_results) + nreq
+    run.cov["evaluations"] = nact + len(gate_results) + ncalls + nreq + run.cov["natives"]["classification_calls"]
+    run.cov["distinct_nontrivial"] = len(edges) + len(gate_results) + ncalls + nreq
     run.cov["rule"] = ("binding A: one replay per distinct (configuration, action history) transition exported "
                        "by TLC; gate: one direct binder call per native x {no alias, alias, flag-name alias}; "
-                       "binding B: one per (configuration, require form, symbol, argument tuple); evaluations "
-                       "adds the classification calls")
+                       "binding B: one per (configuration, require form, symbol, argument tuple) and one per "
+                       "(configuration, require with a path-like module spec); evaluations adds the classification calls")
     run.cov["exhaustive"] = True
     run.cov["observations_validated"] = nobs
     run.cov["observations_rejected"] = rejected
     run.cov["model_counterexample"] = model_violated
     run.cov["binding_B"] = {"symbols": nsym, "function_symbols": nfunc, "calls": ncalls,
-                            "setups": len(call_results)}
+                            "setups": len(call_results), "require_path_forms": nreq}
     run.cov["binding_A"] = {"behaviours": len(edges), "secure_behaviours": nsec_edges, "actions_replayed": nact}
-    run.cov["bounds"] = {"cfg": cfg, "argument_tuples": len(ARG_TUPLES),
+    run.cov["bounds"] = {"cfg": cfg, "argument_tuples": len(ARG_TUPLES) + (0 if quick else len(MORE_TUPLES)),
                          "shadow_forms": len(SHADOW_FORMS), "assign_forms": len(ASSIGN_FORMS)}
     run.assumptions += [
         "osTouching is measured with the path-like/command-like argument tuples of ARG_TUPLES; a native that "
@@ -1442,15 +1550,16 @@ def replay(run, case):
         events, metas = [], []
         try:
             if case["kind"] == "edge":
-                r = pool.map(task_edges, [(wdata, [{"sec": True, "leg": case["leg"], "hist": case["hist"]}])])[0][0]
+                r = pool.map(task_edges, [(wdata, True, case["leg"], case["hist"], [])])[0]
                 if r.get("boot_failed"):
                     raise MachineryError("interpreter cannot be constructed: " + str(r["boot_failed"]))
                 events.append({"op": "new", "sec": True, "leg": case["leg"]})
                 metas.append(("new", "", {}, []))
-                for i, ev in enumerate(r["events"]):
-                    events.append(ev)
-                    metas.append((f"A:legacy={int(case['leg'])}:" + " ; ".join(r["descs"][1:i + 1]),
-                                  " ; ".join(r["descs"][:i + 1]), case, r["details"][i]))
+                descs = [p["desc"] for p in r["prefix"]]
+                for i, p in enumerate(r["prefix"]):
+                    events.append(p["event"])
+                    metas.append((f"A:legacy={int(case['leg'])}:" + " ; ".join(descs[1:i + 1]),
+                                  " ; ".join(descs[:i + 1]), case, p["bad"]))
             elif case["kind"] == "gate":
                 for g in pool.map(task_gate, [dict(wdata, ids=[case["id"]])])[0]:
                     if g["case"]["alias"] == case["alias"]:
@@ -1458,6 +1567,14 @@ def replay(run, case):
                         metas.append(("new", "", {}, []))
                         events.append(g["event"])
                         metas.append(("G:" + g["desc"], g["desc"], g["case"], g["bad"]))
+            elif case["kind"] == "require":
+                r = pool.map(task_requires, [(wdata, case["leg"])])[0]
+                for it in r["items"]:
+                    if it["case"]["form"] == case["form"]:
+                        events.append({"op": "new", "sec": True, "leg": case["leg"]})
+                        metas.append(("new", "", {}, []))
+                        events.append(it["event"])
+                        metas.append((f"R:legacy={int(case['leg'])}:" + it["desc"], it["desc"], it["case"], it["bad"]))
             elif case["kind"] == "call":
                 setup = case.get("setup", "")
                 form, mod = "base", ""
